@@ -56,7 +56,20 @@ structure RState where
   recs : List (Rec × Bool)          -- recorded call, consumed?
   mismatches : List String := []
   order : List Nat := []            -- recorded indices in the order the model consumed them
+  seenHook : Bool := false
+  /-- (group, resource, name) of the parent: classifies a difference by the part of the sync it is in -/
+  parentKey : String × String × String := ("", "", "")
   deriving Inhabited
+
+/-- which part of the sync a request belongs to (used to decide which properties a difference concerns) -/
+def areaOf (st : RState) (q : Req) : String :=
+  match q with
+  | .hook _ _ => "hook"
+  | .api v t _ _ =>
+      if (t.group, t.resource, t.name) == st.parentKey then
+        (if v == .updateStatus then "status" else if st.seenHook then "parent" else "finalizer")
+      else if t.resource == "controllerrevisions" then "revisions"
+      else if st.seenHook then "children" else "claim"
 
 def respOfRec (r : Rec) : Resp :=
   if r.isHook then
@@ -126,15 +139,16 @@ def replay {α : Type} : Prog α → RState → Nat → Option α × RState
   | .call _ _, st, 0 => (none, { st with mismatches := st.mismatches ++ ["replay fuel exhausted"] })
   | .call q k, st, fuel + 1 =>
       match consume q st.recs with
-      | none => (none, { st with mismatches := st.mismatches ++ [s!"model issues a request the implementation did not: {reqText q}"] })
+      | none => (none, { st with mismatches := st.mismatches ++ [s!"[{areaOf st q}] model issues a request the implementation did not: {reqText q}"] })
       | some (r, recs') =>
         let diffs : List String :=
           match q with
           | .api v _ body opts =>
-              (if v != .get && v != .delete && !((normBody body).eqv (normBody r.body)) then [s!"body of {reqText q} differs: model {body.render} impl {r.body.render}"] else []) ++
-              (if v == .delete && !(opts.eqv r.opts) then [s!"options of {reqText q} differ: model {opts.render} impl {r.opts.render}"] else [])
-          | .hook _ req => if !(req.eqv r.hookReq) then [s!"{reqText q} request differs: model {req.render} impl {r.hookReq.render}"] else []
-        replay (k (respOfRec r)) { recs := recs', mismatches := st.mismatches ++ diffs, order := st.order ++ [r.idx] } fuel
+              (if v != .get && v != .delete && !((normBody body).eqv (normBody r.body)) then [s!"[{areaOf st q}] body of {reqText q} differs: model {body.render} impl {r.body.render}"] else []) ++
+              (if v == .delete && !(opts.eqv r.opts) then [s!"[{areaOf st q}] options of {reqText q} differ: model {opts.render} impl {r.opts.render}"] else [])
+          | .hook _ req => if !(req.eqv r.hookReq) then [s!"[hook] {reqText q} request differs: model {req.render} impl {r.hookReq.render}"] else []
+        let st' : RState := { recs := recs', mismatches := st.mismatches ++ diffs, order := st.order ++ [r.idx], seenHook := st.seenHook || r.isHook, parentKey := st.parentKey }
+        replay (k (respOfRec r)) st' fuel
 
 def unconsumed (st : RState) : List Rec :=
   (st.recs.filter (fun x => !x.2 && x.1.verb != "list" && x.1.verb != "watch" && x.1.verb != "watch-closed")).map (·.1)
